@@ -624,6 +624,16 @@ class Spec:
                 corpus.append([l.split() for l in open(os.path.join(cdir, f)).read().splitlines()
                                if l.strip() and not l.startswith("#")])
         if corpus:
+            # `@N:<ts>:<algo>:<salt>` = the nonce the real code makes for that (so that the corpus
+            # survives a change of the nonce derivation)
+            def tok(w):
+                if w.startswith("@N:"):
+                    a = w.split(":")
+                    return sym(int(a[1]), int(a[2]), a[3])
+                return w
+            planned = [[[tok(w) for w in op] for op in seq] for seq in corpus]
+            rs.resolve([x for sq in planned for x in syms_of(sq)])
+            corpus = [subst(sq, rs) for sq in planned]
             f, s = run_batch(self.harness, self.driver, corpus)
             failures += f
             merge_stats(stats, s)
